@@ -409,6 +409,10 @@ type PacketConn struct {
 	OnSetReadDeadline func(t time.Time)
 	readErr           error
 	readErrs          int
+	// Flood, if set, is a datagram that is always ready to be read when nothing else is queued (a socket
+	// under constant load); DropWrites discards what the owner sends instead of keeping it for Sent.
+	Flood      []byte
+	DropWrites bool
 }
 
 // FailRead makes the pending (or next) ReadFrom return err once although the socket is open.
@@ -492,6 +496,9 @@ func (p *PacketConn) ReadFrom(b []byte) (int, net.Addr, error) {
 		if !p.deadline.IsZero() && !time.Now().Before(p.deadline) {
 			return 0, nil, timeoutErr{}
 		}
+		if len(p.in) == 0 && p.Flood != nil {
+			return copy(b, p.Flood), Addr("flood"), nil
+		}
 		if len(p.in) > 0 {
 			d := p.in[0]
 			p.in = p.in[1:]
@@ -524,6 +531,9 @@ func (p *PacketConn) WriteTo(b []byte, addr net.Addr) (int, error) {
 	defer p.mu.Unlock()
 	if p.closed {
 		return 0, net.ErrClosed
+	}
+	if p.DropWrites {
+		return len(b), nil
 	}
 	p.out[addr.String()] = append(p.out[addr.String()], Datagram{append([]byte(nil), b...), addr})
 	p.outCond.Broadcast()
